@@ -937,7 +937,12 @@ func (rl *Shell) killRegion() {
 		return
 	}
 
+	// Leave point where the region started, so that
+	// yanking right away puts the text back in place.
+	bpos, _ := rl.selection.Pos()
+
 	rl.Buffers.Write([]rune(rl.selection.Cut())...)
+	rl.cursor.Set(bpos)
 }
 
 // Copy the text in the region to the kill buffer.
